@@ -1,5 +1,6 @@
 import SspModel.Real
 import SspModel.Model.Schedule
+import SspModel.Lemmas.Bridge.Sched
 import Mathlib.Data.Real.Basic
 import Mathlib.Tactic.Linarith
 /-!
@@ -156,6 +157,14 @@ theorem grid_breaks_at_turnoffs (tmsU tout : List ℝ) (t0 : ℝ) (ts : List ℝ
   exact ⟨hx, by rw [real_lt]; exact hlt⟩
 
 structure Statement : Prop where
+  /-- the source still has the shape the schedule model assumes (grid expression, integrate-then-extract loop, rows selected by equality
+      with the grid time, each row on its own copy of the solver state, flag read after the loop) — in both `_evolve` methods -/
+  source_shape : ∀ x : ℝ,
+    Generated.sched_grid_shape x = 1 ∧
+    Generated.sched_integrate_first x = 1 ∧ Generated.sched_rows_by_equality x = 1 ∧ Generated.sched_row_owns_copy x = 1 ∧
+    Generated.sched_flag_after_loop x = 1 ∧
+    Generated.schedbh_integrate_first x = 1 ∧ Generated.schedbh_rows_by_equality x = 1 ∧ Generated.schedbh_row_owns_copy x = 1 ∧
+    Generated.schedbh_flag_after_loop x = 1
   rows : ∀ {Y Row : Type} (flow : ℝ → ℝ → Y → Y) (extract : ℝ → Nat → Y → Row), ExactFlow flow →
     ∀ (tmsU tout : List ℝ) (y0 : Y) (rows0 : Nat → Option Row), (∀ t ∈ tout, 0 ≤ t) → (∀ t ∈ tmsU, 0 ≤ t) →
     ∀ i, i < tout.length →
@@ -180,6 +189,7 @@ theorem grid_nonneg (tmsU tout : List ℝ) (h1 : ∀ t ∈ tout, 0 ≤ t) (h2 : 
 /-- **C06 (partial)**: exact-flow statement. dopri5 restarts its step control at every `integrate` call, so the real
     flow has the semigroup property only to integrator accuracy (checked by the schedule-differential sweep). -/
 theorem C06_partial : Statement where
+  source_shape := Bridge.gen_sched_shape
   rows := fun flow extract hf tmsU tout y0 rows0 h1 h2 i hi => by
     apply row_eq_single flow extract hf tout _ y0 rows0 _ (grid_contains_tout tmsU tout) i hi
     rw [List.pairwise_cons]
